@@ -20,7 +20,8 @@ import (
 var CollNames = []sgbucket.DataStoreNameImpl{
 	{Scope: sgbucket.DefaultScope, Collection: sgbucket.DefaultCollection},
 	{Scope: "s1", Collection: "c1"},
-	{Scope: "s1", Collection: "c2"},
+	{Scope: "s2", Collection: "c1"}, // the same collection name in another scope
+	{Scope: "s1", Collection: "c2"}, // another collection in the same scope
 }
 
 type Config struct {
